@@ -256,6 +256,15 @@ class ClassParser(BaseParser):
         self.attr_alias_map = attr_alias_map
         self.case_insensitive_names = case_insensitive_names
 
+    def resolve_forward_refs(self, local_vars=None, ignore_errors: bool = True):
+        # fields inherited from a base class keep the references that are pending in that class's parser:
+        # they have to be resolved where they were declared, even when the subclass is used first
+        for base in self.obj.__bases__:
+            parser = base.__dict__.get("__parser__")
+            if isinstance(parser, ClassParser):
+                parser.resolve_forward_refs(ignore_errors=ignore_errors)
+        return super().resolve_forward_refs(local_vars=local_vars, ignore_errors=ignore_errors)
+
     def make_setter(self, field: ParserField, post_setattr=None):
         def setter(_obj_self: object, value):
             if self.options.immutable or field.immutable:
